@@ -27,6 +27,10 @@ def gen_sched_case(rng, tier, kind=None, mode=None, static=False, many_to_one=No
         fmap = [rng.randrange(ncls) for _ in flows]
         for c in range(ncls):               # every class used
             fmap[c % nflows] = c if rng.random() < 0.7 else fmap[c % nflows]
+        if rng.random() < 0.4:
+            # class ids are names of their own: none of them is also a flow id
+            off = rng.choice([100, 1000])
+            fmap = [c + off for c in fmap]
         case['fmap'] = fmap
         classes = sorted(set(fmap))
     else:
@@ -116,6 +120,17 @@ def gen_sched_case(rng, tier, kind=None, mode=None, static=False, many_to_one=No
                            'dist': [rng.choice([0.125, 0.25, 0.5, 1.0, 0.0625, 0.03125]) for _ in range(10)]}
     if rng.random() < 0.1:
         case['late_cfg'] = rng.choice([8, 12345, 1 << 22])
+    if not static and rng.random() < 0.12:
+        # the link is re-provisioned while the scheduler is idle: after everything of the first phase has left, the
+        # public `rate` attribute is assigned another value and a second phase of traffic follows (same packet sizes)
+        busy = sum(x[2] for x in wl) * 8.0 / rate
+        at = float(int(max(x[0] for x in wl) + busy) + 2)
+        rate2 = rng.choice([r for r in (GRID_RATES if mode != 'FLOAT' else FLOAT_RATES) if r != rate] or [rate * 2])
+        ts2 = gen_times(rng, rng.randint(1, 15), mode)
+        case['phase2'] = {'at': at, 'rate': rate2}
+        wl2 = [[at + 1 + (t * scale if mode != 'DISTINCT' else t), rng.choice(flows), rng.choice(sorted(set(x[2] for x in wl))),
+                0, None, 0] for t in ts2]
+        case['workload'] = wl + sorted(wl2, key=lambda x: x[0])
     if mode != 'FLOAT' and rng.random() < 0.12:
         # a fast link (tens of Mbit/s to Tbit/s): the same scenario with the rate multiplied and every instant divided
         # by a power of two, which is exact in binary floating point; transmission times go down to nanoseconds
@@ -135,7 +150,15 @@ def gen_sched_case(rng, tier, kind=None, mode=None, static=False, many_to_one=No
                 case['shadow']['table'] = [[k, v / c] for k, v in case['shadow']['table']]
         if case.get('monitor'):
             case['monitor']['dist'] = [v / c for v in case['monitor']['dist']]
+        if case.get('phase2'):
+            case['phase2'] = {'at': case['phase2']['at'] / c, 'rate': case['phase2']['rate'] * int(c)}
         case['fast_link'] = True
+    if kind == 'VC' and mode == 'GRID' and not case.get('fast_link') and rng.random() < 0.12:
+        # a long-running simulation (clock at 2**40, resolution 2**-12) with vticks below that resolution: `now + vtick`
+        # is `now`, stamps of one class coincide and only the arrival order separates them
+        case['t0'] = 2.0 ** 40
+        case['table'] = [[c, v * 2.0 ** -16 if rng.random() < 0.7 else v] for c, v in case['table']]
+        case['absorbed_vticks'] = True
     return case
 
 
@@ -203,6 +226,13 @@ def build(w, case):
             return
             yield
         env.process(configure())
+    ph = case.get('phase2')
+    if ph:
+        def reprovision():
+            yield env.timeout(ph['at'])
+            s.rate = ph['rate']
+            w.rec('RECONF', 's', ph['rate'], s.total_packets)
+        env.process(reprovision())
     return s, f2c
 
 
@@ -228,6 +258,7 @@ def run_sched(case):
     if case.get('shadow'):
         sh = dict(case)
         sh.update(case['shadow'])
+        sh.pop('phase2', None)
         s2, _f = build(w, sh)
         s2.out = OutTap(w, 's2', s2, Recorder(w, 'sink2'))
         start_injector(w, InTap(w, 's2', s2), [tuple([t0 + x[0]] + list(x[1:])) for x in sh.get('workload', [])], src='src2')
@@ -312,9 +343,18 @@ def parse(r):
     # service starts from the timing law's own definition
     prev = None
     pending = sorted(H.arr, key=lambda a: (a['t'], a['G']))
+    ph = case.get('phase2')
+    H.rate2_from = None
+    for rec in w.log:
+        if rec[0] == 'RECONF':
+            H.rate2_from = rec[2]
+            if rec[5]:
+                H.viol.append(('.0', 'harness: the scheduler was not idle when its rate was changed'))
+    for a in H.arr:
+        a['rate'] = ph['rate'] if ph and H.rate2_from is not None and a['t'] > H.rate2_from else rate
     for k, a in enumerate(H.deps):
         a['k'] = k
-        a['tx'] = a['size'] * 8.0 / rate
+        a['tx'] = a['size'] * 8.0 / a['rate']
         a['start'] = a['out'][1] - a['tx']
     H.quiescent = w.quiescent
     H.mode = mode
@@ -375,7 +415,9 @@ def check_generic(H, case, pid):
     for k, a in enumerate(H.deps):
         amin = min((b['t'] for b in H.arr if b.get('k', 1 << 60) >= k), default=a['t'])
         s = amin if prev_dep is None else max(prev_dep, amin)
-        want = s + a['size'] * 8.0 / rate
+        want = s + a['size'] * 8.0 / a['rate']
+        if a['rate'] != rate:
+            stats['rate_changed_while_idle'] = 1
         if prev_dep is not None and prev_dep >= amin:
             stats['back_to_back'] = 1
         if prev_dep is not None and any(b['t'] == prev_dep for b in H.arr):
@@ -538,7 +580,7 @@ def stamps(H, case, kind):
                     ambiguous = False          # a clean idle gap: the busy period certainly ended, everything was reset
             else:
                 V += (t - last) / sum(table[x] for x in active)
-            F[c] = max(F[c], V) + a['size'] * 8.0 / (rate * table[c])
+            F[c] = max(F[c], V) + a['size'] * 8.0 / (a['rate'] * table[c])
             if not ambiguous:
                 a['stamp'] = F[c]
                 a['V'] = V
@@ -718,7 +760,7 @@ def drr_reference(H, case):
             deficit[c] += Q[c]
             while queues[c] and queues[c][0]['size'] <= deficit[c]:
                 p = queues[c].pop(0)
-                now = max(now, p['t']) + p['size'] * 8.0 / rate
+                now = max(now, p['t']) + p['size'] * 8.0 / p.get('rate', rate)
                 out.append((p['pkt'], now))
                 deficit[c] -= p['size']
                 admit(now)
